@@ -126,6 +126,7 @@ Spec == Init /\ [][Next]_vars /\ WF_vars(Next)
 SweepBound == sweeps <= ModelSweepLimit(N)
 \* a slice of the graphs for the negative control at N = 4 (PassLoop_old3.cfg)
 NoKill == \A n \in Nodes : kill[n] = {} /\ gen[n] = (IF n = N THEN Facts ELSE {})
+KillFree == \A n \in Nodes : kill[n] = {}
 GenAt2 == \A n \in Nodes : kill[n] = {} /\ gen[n] = (IF n = 2 THEN Facts ELSE {})
 FixedPoint == (pc = "done" /\ ~cutDone) =>
                 \A n \in Nodes : /\ fin[n] = RootIn(RootsAreEntries, roots, n, Meet(Prevs(n)))
